@@ -532,6 +532,8 @@ def members(ev, fn, args, signs, tries=60):
     names -= {"base", "out", "div", "ite"}
     for _ in range(tries):
         env = viewops.sample_env(sorted(names), signs, rnd)
+        if not viewops.facts_hold(signs, env):
+            continue
         penv = {k: P.const(v) for k, v in env.items()}
         try:
             ev.run(fn, [a.subst(penv) for a in args], signs)
@@ -554,19 +556,30 @@ def check_expect(cr, rep):
         signs = viewops.base_signs(it.D)
         signs.update(case.get("__signs", {}))
         args = [A("base")] + viewops.descriptor_args(it.D, cr.zb, env) + [A(a).subst(env) for a in it.args] + [A("out")]
-        try:
-            cr.ev.run(cr.fn(i), args, signs)
-            rep.violated(it.key, it.family, "%s: an access with an index outside the extension reaches no assertion (evaluated to completion)" % it.key, dict(body=it.body))
-        except irval.AssertFires as e:
-            rep.ok(it.key, it.family, dict(handler=str(e)[:100]))
-        except irval.Inconclusive as e:
-            # the library's test depends on values the case does not fix: decide on concrete members of the case class
-            miss = [envc for envc, oc in members(cr.ev, cr.fn(i), args, signs) if oc == "completes"]
-            if miss:
-                rep.violated(it.key, it.family, "%s: an access with an index outside the extension reaches no assertion for %s (the test depends on values the case "
-                             "does not fix: %s)" % (it.key, miss[0], str(e)[:100]), dict(body=it.body, member=miss[0]))
+        leaves = viewops.split_run(cr.ev, cr.fn(i), args, signs, offs=set())
+        verdicts = []
+        for desc, sub, lsigns, largs, st, exc in leaves:
+            where = (" in the sub-case {%s}" % desc) if len(leaves) > 1 else ""
+            if isinstance(exc, irval.AssertFires):
+                verdicts.append(("ok", str(exc)[:100]))
+            elif exc is None:
+                verdicts.append(("bad", "%s: an access with an index outside the extension reaches no assertion (evaluated to completion)%s" % (it.key, where), None))
             else:
-                rep.inconclusive(it.key, it.family, str(e))
+                # the library's test depends on values the case does not fix: decide on concrete members of the case class
+                miss = [envc for envc, oc in members(cr.ev, cr.fn(i), largs, lsigns) if oc == "completes"]
+                if miss:
+                    verdicts.append(("bad", "%s: an access with an index outside the extension reaches no assertion for %s%s (the test depends on values the case "
+                                     "does not fix: %s)" % (it.key, miss[0], where, str(exc)[:100]), miss[0]))
+                else:
+                    verdicts.append(("unk", str(exc)))
+        bad = [v for v in verdicts if v[0] == "bad"]
+        unk = [v for v in verdicts if v[0] == "unk"]
+        if bad:
+            rep.violated(it.key, it.family, bad[0][1], dict(body=it.body, member=bad[0][2]))
+        elif unk:
+            rep.inconclusive(it.key, it.family, unk[0][1])
+        else:
+            rep.ok(it.key, it.family, dict(handler=verdicts[0][1], sub_cases=len(verdicts)))
     keep = [(i, it) for i, it in enumerate(cr.items) if not it.cases[0].get("__expect_assert")]
     # evaluate the in-domain items with the standard comparer, keeping function indices
     cmp_ = viewops.ViewRun(rep, cr.pid, cr.zb, cr.wd)
@@ -576,19 +589,20 @@ def check_expect(cr, rep):
         signs = viewops.base_signs(it.D)
         signs.update(case.get("__signs", {}))
         args = [A("base")] + viewops.descriptor_args(it.D, cr.zb, env) + [A(a).subst(env) for a in it.args] + [A("out")]
-        try:
-            cr.ev.run(cr.fn(i), args, signs)
-            st = cr.ev.stores
-        except irval.Inconclusive as e:
-            fired = [envc for envc, oc in members(cr.ev, cr.fn(i), args, signs) if oc == "assert"]
-            if fired:
-                rep.violated(it.key + ".assert", it.family, "an assertion fires on an in-domain access for %s (the test depends on values the case does not fix: %s)"
-                             % (fired[0], str(e)[:100]), dict(body=it.body, member=fired[0]))
-            else:
-                rep.inconclusive(it.key, it.family, str(e))
-            continue
-        except irval.AssertFires as e:
-            rep.violated(it.key + ".assert", it.family, "an assertion fires on an in-domain access: %s" % e, dict(body=it.body))
-            continue
-        for (k, name), w in it.wants.items():
-            cmp_.compare("%s.%s" % (it.key, name), it.family, st.get(8 * k), w.subst(env) if hasattr(w, "subst") else P.const(w), signs, type("o", (), {"expr": it.body})(), it.D)
+        leaves = viewops.split_run(cr.ev, cr.fn(i), args, signs, offs={8 * k for (k, name) in it.wants})
+        for desc, sub, lsigns, largs, st, exc in leaves:
+            ltag = (",{%s}" % desc) if len(leaves) > 1 else ""
+            if isinstance(exc, irval.AssertFires):
+                rep.violated(it.key + ltag + ".assert", it.family, "an assertion fires on an in-domain access%s: %s" % (ltag, exc), dict(body=it.body))
+                continue
+            if exc is not None:
+                fired = [envc for envc, oc in members(cr.ev, cr.fn(i), largs, lsigns) if oc == "assert"]
+                if fired:
+                    rep.violated(it.key + ltag + ".assert", it.family, "an assertion fires on an in-domain access for %s (the test depends on values the case does not fix: %s)"
+                                 % (fired[0], str(exc)[:100]), dict(body=it.body, member=fired[0]))
+                else:
+                    rep.inconclusive(it.key + ltag, it.family, str(exc))
+                continue
+            for (k, name), w in it.wants.items():
+                wv = viewops.deep_subst(w.subst(env), sub, lsigns) if hasattr(w, "subst") else P.const(w)
+                cmp_.compare("%s.%s%s" % (it.key, name, ltag), it.family, st.get(8 * k), wv, lsigns, type("o", (), {"expr": it.body})(), it.D)
